@@ -855,6 +855,9 @@ def config(draw, tier, purpose):
         cs = draw(counts_list(npv, 2, m_hi, mixed=draw(st.integers(0, 3)) > 0))
         if big and shape == "1q" and tomo in ("qst", "qpt") and draw(st.booleans()):
             cs[0] = draw(st.integers(10, 12))
+        if purpose == "affine" and shape == "1q" and tomo in ("qst", "qpt") and draw(st.integers(0, 5)) == 0:
+            # a final measurement with ten or more outcomes also where the CIRCUIT is compared with the Born rule
+            cs[-1] = draw(st.integers(9, 12))
         case["povms"] = [draw(tester_povm(shape, mm, style)) for mm in cs]
         if purpose == "affine":
             # construction instead of rejection: a tester with a (nearly) null element is mixed with the trivial POVM so
